@@ -596,7 +596,43 @@ class BlotterMonitor(Monitor):
             if mb.status == "CLOSED" and any(not o.complete for o in market.blotter):
                 self.res.probes["c15.closure_with_live_orders"] += 1
 
+    def on_main_event(self, ev):
+        # World B: bets of a known strategy that the order stream has just shown and that no local order refers to
+        # (placed by another instance): after this handler each must be in its market's blotter, once (own reference: the
+        # references in the stream, not flumine's adoption bookkeeping)
+        self.expect_adopted = []
+        self.len_at_event = {mid: len(lst) for mid, lst in self.shadow.items()}
+        if ev.EVENT_TYPE.name != "CURRENT_ORDERS" or getattr(ev, "exchange", None) is not None and getattr(ev.exchange, "name", "") == "BETDAQ":
+            return
+        hashes = {a.name_hash: a for a in self.run.agents}
+        known = set(o.id for lst in self.shadow.values() for o in lst)
+        for co in ev.event or []:
+            for cur in getattr(co, "orders", []):
+                ref = getattr(cur, "customer_order_ref", None)
+                if not ref or "-" not in ref:
+                    continue
+                h, oid = ref.split("-", 1)
+                if h in hashes and oid not in known and not any(x[1] == oid for x in self.expect_adopted):
+                    self.expect_adopted.append((cur.market_id, oid, cur.bet_id, hashes[h].name))
+
     def on_step_end(self):
+        for mid, oid, bet_id, sname in getattr(self, "expect_adopted", ()):
+            market = self.run.fw.markets.markets.get(mid)
+            order = None
+            if market is not None and oid in market.blotter:
+                order = market.blotter[oid]
+            if order is None:
+                self.violate(self.P, "C15.views", "order-shown-by-the-order-stream-not-in-its-markets-blotter", market=mid, bet_id=bet_id, strategy=sname, market_registered=market is not None, market_closed=bool(market is not None and market.closed))
+            else:
+                # adoption happens while the snapshot is processed, i.e. before the strategies' process_orders callbacks
+                # of the same handler place anything
+                lst = self.shadow.setdefault(mid, [])
+                at = self.len_at_event.get(mid, 0)
+                lst.insert(at, order)
+                self.len_at_event[mid] = at + 1
+                self.res.nontrivial = True
+                self.res.probes["c15.live.adopted_at_runtime" + (".into_closed_market" if market.closed else "")] += 1
+        self.expect_adopted = []
         for market in self.run.fw.markets:
             self.audit(market, "handler_step_end")
 
